@@ -70,9 +70,14 @@ def union_no_overlap(events1: List[Event], events2: List[Event]) -> List[Event]:
             events_union.append(e2_head)
             events2[e2_i] = e2_rest
         elif e1_end < e2_end:
-            # e2 starts within e1 and continues after it: only the part after e1 remains
+            # e2 starts within e1 and continues after it: only the part after e1 remains.
+            # e1 ends where that remainder starts, so it can be emitted right away (this
+            # also guarantees progress when the remainder's start gets floored back to
+            # the millisecond because e1 ends on a sub-millisecond instant)
             _, e2_rest = _split_event(e2, e1_end)
             events2[e2_i] = e2_rest
+            events_union.append(e1)
+            e1_i += 1
         else:
             # e2 is entirely covered by e1
             e2_i += 1
